@@ -1,6 +1,8 @@
 package state
 
 import (
+	"time"
+
 	eventbus "github.com/jilio/ebu"
 )
 
@@ -11,12 +13,26 @@ type c18Op struct {
 	val     int
 	tag     string // optional field of entA (omitted from the message when empty)
 	sameOld bool   // update built by UpdateWithOldValue with old == new
+	ts      int    // > 0: the message carries this header timestamp (seconds); timestamps need not increase along the log
+	wrapped bool   // published inside an application envelope type that embeds the message and has its own event type name
 }
+
+// c18Envelope is an application event that embeds a state-protocol message: it is stored under the
+// application's type name and serialises to the message's fields.
+type c18Envelope struct {
+	*ChangeMessage
+}
+
+func (c18Envelope) EventTypeName() string { return "app.entity-changed" }
 
 func c18Publish(bus *eventbus.EventBus, o c18Op) {
 	msg, ctrl := c18Build(o)
 	if ctrl != nil {
 		eventbus.Publish(bus, *ctrl)
+		return
+	}
+	if o.wrapped {
+		eventbus.Publish(bus, c18Envelope{msg})
 		return
 	}
 	eventbus.Publish(bus, *msg)
@@ -26,10 +42,14 @@ func c18Publish(bus *eventbus.EventBus, o c18Op) {
 func c18Build(o c18Op) (*ChangeMessage, *ControlMessage) {
 	var msg *ChangeMessage
 	var err error
+	var opts []ChangeOption
+	if o.ts > 0 {
+		opts = append(opts, WithTimestamp(time.Unix(int64(o.ts), 0)))
+	}
 	switch o.kind {
 	case 0:
 		if o.typ == 0 {
-			msg, err = Insert(o.key, entA{V: o.val, Tag: o.tag})
+			msg, err = Insert(o.key, entA{V: o.val, Tag: o.tag}, opts...)
 		} else {
 			msg, err = Insert(o.key, entB{V: o.val})
 		}
@@ -38,13 +58,13 @@ func c18Build(o c18Op) (*ChangeMessage, *ControlMessage) {
 			// an update that carries an old value equal to the new one is an update all the same
 			msg, err = UpdateWithOldValue(o.key, entA{V: o.val, Tag: o.tag}, entA{V: o.val, Tag: o.tag})
 		} else if o.typ == 0 {
-			msg, err = Update(o.key, entA{V: o.val, Tag: o.tag})
+			msg, err = Update(o.key, entA{V: o.val, Tag: o.tag}, opts...)
 		} else {
 			msg, err = Update(o.key, entB{V: o.val})
 		}
 	case 2:
 		if o.typ == 0 {
-			msg, err = Delete[entA](o.key)
+			msg, err = Delete[entA](o.key, opts...)
 		} else {
 			msg, err = Delete[entB](o.key)
 		}
@@ -150,13 +170,17 @@ func (x *c18Mat) check(ops []c18Op, upto int, probe string, wantOff eventbus.Off
 //verif:entry property=C18 tier=both bounds="M messages (M_quick=2,M_thorough=3), each insert/update/delete/reset/snapshot-start/snapshot-end/change for an unregistered type over 2 entity types with arbitrary (SMT string) keys and symbolic values; strict or not; split into two replay sessions at any point; state compared through a universally quantified probe key" cover="one-session,two-sessions,strict-stop" M_quick=2 M_thorough=3
 func harnessC18Fold() { c18Fold(vParam("M", 3), false) }
 
-//verif:entry property=C18 tier=both bounds="longer logs over a smaller alphabet: M messages (M_quick=3,M_thorough=4), each insert/update/delete of one of two fixed keys (one contains the separator) of one entity type with a symbolic value, or reset; non-strict; split into two replay sessions at any point; same fold oracle" cover="one-session,two-sessions" M_quick=3 M_thorough=4
+//verif:entry property=C18 tier=both bounds="longer logs over a smaller alphabet: M messages (M_quick=3,M_thorough=4), each insert/update/delete of one of two fixed keys (one contains the separator) of one entity type with a symbolic value (optionally all carrying header timestamps that decrease along the log, optionally all published inside an application envelope type with its own event type name), or reset; non-strict; split into two replay sessions at any point; same fold oracle" cover="one-session,two-sessions" M_quick=3 M_thorough=4
 func harnessC18FoldFocused() { c18Fold(vParam("M", 3), true) }
 
 func c18Fold(M int, focused bool) {
 	strict := !focused && vBool()
 	bus, st := newBus()
 	ops := make([]c18Op, M)
+	// log-level variations of the focused entry: every change message carries a header timestamp and these
+	// decrease along the log; every change message travels inside an application envelope type
+	tsDown := focused && vBool()
+	wrapAll := focused && vBool()
 	for i := range ops {
 		if focused {
 			o := c18Op{kind: vInt(0, 3)}
@@ -166,6 +190,12 @@ func c18Fold(M int, focused bool) {
 			}
 			if o.kind == 1 {
 				o.sameOld = vBool()
+			}
+			if o.kind <= 2 {
+				if tsDown {
+					o.ts = M - i // header timestamps that decrease along the log
+				}
+				o.wrapped = wrapAll
 			}
 			ops[i] = o
 			continue
